@@ -702,6 +702,57 @@ fn part3(tier: Tier, deadline: &Deadline) -> Stats {
                     }
                 }
             }
+            // a driver that misbehaves once (fails, or answers in another order / with fewer values
+            // than its first answer) spoils the row of that call and nothing else: the caller
+            // carries on and every other row is still the static one
+            let full: Answer = sigs.iter().filter(|s| s.is_out()).map(|s| (s.name.clone(), V::Num(7))).collect();
+            let mut reversed = full.clone();
+            reversed.reverse();
+            let devs = [Step::Fault(31), Step::Ans(reversed), Step::Ans(full[..1].to_vec())];
+            for j in 1..=rows.len().min(4) {
+                for (di, dev) in devs.iter().enumerate() {
+                    let mut script: Vec<Step> = vec![Step::Ans(full.clone()); j];
+                    script.push(dev.clone());
+                    script.push(Step::Ans(full.clone()));
+                    let mut opts = RunOpts::new(46);
+                    opts.repeat_last = true;
+                    opts.continue_after_error = true;
+                    let o = run_loaded(&tc, &sigs, true, &script, &opts);
+                    st.steps += o.items.len() as u64;
+                    let items: Vec<&ObsItem> = o.items.iter().filter(|i| **i != ObsItem::End).collect();
+                    let mut bad: Option<(usize, String)> = None;
+                    if items.len() != rows.len() {
+                        bad = Some((items.len().min(rows.len()), format!("static iteration yields {} items, the dynamic run {}", rows.len(), items.len())));
+                    } else {
+                        for (k, (d, s)) in items.iter().zip(rows.iter()).enumerate() {
+                            // the item whose call (number j) was the misbehaving one
+                            let hit = o.calls_after.get(k + 1).copied() == Some(j + 1) && o.calls_after.get(k).copied() == Some(j);
+                            let ok = match (d, s) {
+                                (ObsItem::Row(r), Ok(s)) if !hit || (di > 0 && r.outputs.is_empty()) => StaticRow { line: r.line, inputs: r.inputs.clone(), expected: r.outputs.iter().map(|x| (x.name.clone(), x.expected)).collect() } == *s,
+                                (ObsItem::Row(_), Ok(_)) => false,
+                                (ObsItem::DriverErr(_) | ObsItem::Runtime(_), Ok(_)) => hit,
+                                (ObsItem::Runtime(_), Err(_)) => true,
+                                _ => false,
+                            };
+                            if hit {
+                                st.witness("row_spoilt_by_a_misbehaving_driver_then_carried_on");
+                            }
+                            if !ok {
+                                bad = Some((k, format!("item {k}: static {:?}, dynamic {}", s.as_ref().map(|r| r.line), d.brief())));
+                                break;
+                            }
+                        }
+                    }
+                    if let Some((k, m)) = bad {
+                        let what = ["fails", "answers in reversed order", "answers with one value"][di];
+                        let sum = format!("{text}the driver {what} at call {j} (once), the caller carries on
+{m}
+(first difference at item {k})");
+                        st.violation("static rows differ from a dynamic run whose driver misbehaved once", idx << 6 | (j as u64) << 2 | di as u64, sum, || dyn_replay(&text, &sigs, true, &script, &opts, rows.iter().map(|r| format!("{r:?}")).collect(), &o, "static != dynamic"));
+                        return;
+                    }
+                }
+            }
             if idx % 301 == 5 {
                 st.sample(|| json!({"part": 3, "program": text, "static_rows": rows.len()}));
             }
@@ -741,7 +792,7 @@ pub fn run(tier: Tier, seed: u64) -> i32 {
             "interleaving states are merged on the position vector; the thorough tier re-explores without merging".into(),
             "values drawn by random are outside the property; the seed is pinned through hook H1".into(),
         ],
-        required_witnesses: vec!["non_identity_hash_map_order", "binding_error_compared", "real_hash_map_order_varies_under_the_seam", "non_identity_order_in_the_dig_loader", "step_while_another_iterator_is_mid_run", "iterator_restarted_mid_run", "program_reading_outputs_is_not_static", "static_program_compared_with_dynamic_runs", "static_iteration_past_an_error_item"],
+        required_witnesses: vec!["non_identity_hash_map_order", "binding_error_compared", "real_hash_map_order_varies_under_the_seam", "non_identity_order_in_the_dig_loader", "step_while_another_iterator_is_mid_run", "iterator_restarted_mid_run", "program_reading_outputs_is_not_static", "static_program_compared_with_dynamic_runs", "static_iteration_past_an_error_item", "row_spoilt_by_a_misbehaving_driver_then_carried_on"],
         exhaustive_note: "all orders, all interleavings (as states and schedule edges), all programs within the bounds".into(),
         e1: true,
     };
